@@ -31,6 +31,8 @@ ASSUMPTIONS = [
     "CPython FIFO ready-queue order is kept; only suspension patterns and external completion order are permuted",
     "the handler-variety families (raising handler position / kind, catch-all arrangements, a-b-a duplicates) run on 8 "
     "representative timestamp patterns, the base family on all patterns",
+    "sources built from a list the caller keeps (one list for two sources; a list reused for the next source and changed "
+    "afterwards): a source delivers the events its list held when the source was constructed",
     "the order in which catch-all handlers of one stage start is not part of the statement and is not checked",
     "events pushed to a derived source by a scheduled JOB (stamped now()) are covered for jobs whose time lies strictly "
     "between two event times (found a genuine defect, repaired by /repo 20c027b); events created during the final drain "
@@ -120,6 +122,17 @@ def scenarios(tier, seed):
                     if jt < latest:
                         for sniff in (False, True):
                             out.append((st, maxc, sniff, 0, False, False, False, _opts(jobpush=jt)))
+    # sources built from a list object the caller keeps: ONE list given to two sources; a list that is reused for the next
+    # source and changed after the sources were built. A source delivers the events its list held at construction time.
+    for x in _seqs(2):
+        if x:
+            for maxc in maxcs:
+                for derived in (0, 1):
+                    out.append(((x, x), maxc, False, derived, False, False, False, _opts(lists="shared")))
+    for st in SHAPES_S:
+        for maxc in maxcs:
+            for sniff in (False, True):
+                out.append((st, maxc, sniff, 0, False, False, False, _opts(lists="reuse")))
     assert len(set(out)) == len(out) and not (seen & set(out[len(seen):]))
     return out
 
@@ -154,15 +167,30 @@ def parse(sc):
     opts = dict(sc[7]) if len(sc) > 7 else {}
     npre, npost = opts.get("sn", (1, 1) if sniff else (0, 0))
     rtarget, rkind = opts.get("raise", ("h01", "fn") if raiser else (None, None))
-    return src_times, maxc, (npre, npost), derived, (rtarget, rkind), dup, pastjob, opts.get("jobpush")
+    return src_times, maxc, (npre, npost), derived, (rtarget, rkind), dup, pastjob, opts.get("jobpush"), opts.get("lists")
 
 
 def make_run(sc, states=None):
-    src_times, maxc, (npre, npost), derived, (rtarget, rkind), dup, pastjob, jobpush = parse(sc)
+    src_times, maxc, (npre, npost), derived, (rtarget, rkind), dup, pastjob, jobpush, lists = parse(sc)
 
     def run_one(ch):
         d = bs.backtesting_dispatcher(max_concurrent=maxc)
-        srcs = [bs.FifoQueueEventSource(events=[bs.Event(T(t)) for t in times]) for times in src_times]
+        if lists == "shared":
+            # the same list object (hence the same Event objects) for both sources
+            kept = [bs.Event(T(t)) for t in src_times[0]]
+            srcs = [bs.FifoQueueEventSource(events=kept) for _ in src_times]
+        elif lists == "reuse":
+            # the caller recycles its list for the next source and goes on using it afterwards
+            kept = []
+            srcs = []
+            for times in src_times:
+                kept.clear()
+                kept.extend(bs.Event(T(t)) for t in times)
+                srcs.append(bs.FifoQueueEventSource(events=kept))
+            kept.clear()
+            kept.append(bs.Event(T(3.5)))   # not an event of any source
+        else:
+            srcs = [bs.FifoQueueEventSource(events=[bs.Event(T(t)) for t in times]) for times in src_times]
         dsrc = bs.FifoQueueEventSource()
         trace = []
         clock = []
@@ -262,7 +290,7 @@ def _stage(h):
 
 
 def oracle(sc, r):
-    src_times, maxc, (npre, npost), derived, (rtarget, rkind), dup, pastjob, jobpush = parse(sc)
+    src_times, maxc, (npre, npost), derived, (rtarget, rkind), dup, pastjob, jobpush, lists = parse(sc)
     bad = []
     if r["out"] != "returned":
         bad.append(("run-outcome", r["out"]))
@@ -312,7 +340,9 @@ def oracle(sc, r):
     byev = collections.defaultdict(list)
     for k, x in enumerate(tr):
         if x[0] in ("start", "end"):
-            byev[x[2]].append((k, x))
+            # (one Event object delivered through two sources - lists="shared" - is two deliveries: grouped per source)
+            grp = (x[2], x[1][1]) if lists == "shared" and x[1][0] == "h" and x[1] != "hD" else x[2]
+            byev[grp].append((k, x))
     inf = 10 ** 9
     for ev, items in byev.items():
         st = {x[1]: k for k, x in items if x[0] == "start"}
